@@ -56,7 +56,9 @@ class TInterp(Interp):
         s = TInterp(self.F, g, n=self.n, members=self.members, opaque=self.opaque)
         s.depth = self.depth + 1
         for p, v in zip(g.params, vals):
-            s.env[p["d"]] = list(v) if is_arr(v) and not (p.get("t") or "").rstrip().endswith("&") else v
+            ty = (p.get("t") or "").rstrip()
+            # by-value std::array parameters are copies; tensor maps passed by value are views of the caller's storage
+            s.env[p["d"]] = list(v) if is_arr(v) and not ty.endswith("&") and "tensor_t<" not in ty else v
         return s.run()
 
     def ev(self, n):
@@ -106,6 +108,14 @@ class TInterp(Interp):
             if is_arr(o) and name == "fill" and len(a) == 1:
                 o[:] = [a[0]] * len(o)
                 return o
+            if is_arr(o) and name in ("tensor", "vector", "array") and len(a) == 1 and o and is_arr(o[0]):
+                return o[int(a[0])]          # first-axis sub-tensor of a nested-list tensor (an alias, like the real view)
+            if is_arr(o) and name in ("tensor", "vector", "array") and not a:
+                return o
+            if is_arr(o) and name == "size" and not a and n.get("targs") and str(n["targs"][0]).rstrip("UL") == "0":
+                return sp.Integer(len(o))
+            if is_arr(o) and name in ("begin", "end", "cbegin", "cend") and not a:
+                return ("iter", o, name.lstrip("c"))
             raise OutOfFragment("method %s on a non-this object: %s" % (name, t[:60]))
         if ck == "op" and n.get("op") == "[]" and len(c) == 2:
             base = self.ev(c[0])
@@ -126,6 +136,16 @@ class TInterp(Interp):
                 return ("map", name, sp.expand(vals[0]), ext)
             if q == "nano::make_dims":
                 return [self.ev(x) for x in c]
+            if q == "std::partial_sum" and len(c) == 3:
+                v = [self.ev(x) for x in c]
+                if all(isinstance(x, tuple) and x and x[0] == "iter" for x in v) and v[0][1] is v[1][1] and (v[0][2], v[1][2], v[2][2]) == ("begin", "end", "begin"):
+                    src, dst = v[0][1], v[2][1]
+                    acc = sp.Integer(0)
+                    for j, x in enumerate(list(src)):
+                        acc = acc + x
+                        dst[j] = acc
+                    return ("iter", dst, "end")
+                raise OutOfFragment("partial_sum over unknown ranges")
             tg = self.F.resolve(n)
             if tg and not q.startswith("std::"):
                 return self.sub(tg[0], [self.ev(x) for x in c])
@@ -463,9 +483,80 @@ def rule_compile_fail(R):
     R.floor("R-C16-2", len(expect), 6, "compile-fail witnesses")
 
 
+SCALAR_RANK = {"bool": (0, 1), "signed char": (0, 8), "char": (0, 8), "unsigned char": (0, 8), "short": (0, 16), "unsigned short": (0, 16), "int": (0, 32),
+               "unsigned int": (0, 32), "long": (0, 64), "unsigned long": (0, 64), "long long": (0, 64), "unsigned long long": (0, 64),
+               "float": (1, 32), "double": (1, 64), "long double": (1, 80)}
+
+
+def scalar_rank(t):
+    t = (t or "").replace("const ", "").replace("&", "").replace("*", "").strip()
+    return SCALAR_RANK.get(t)
+
+
+def rule_integral(F, R):
+    """R-C16-4: the summed-area table is the naive prefix sum, accumulated in the output scalar type"""
+    gets = [f for f in F.functions.values() if f.qn == "nano::integral_t::get" and f.relfile == "include/nano/tensor/integral.h"]
+    R.floor("R-C16-4", len(gets), 5, "integral_t<N>::get instantiations")
+    done = set()
+    for f in sorted(gets, key=lambda f: f.key):
+        m = re.search(r"integral_t<(\d+)>::get<([^,>]+), ([^>]+)>", f.key)
+        if not m:
+            R.incomplete("R-C16-4", f.key[:80], f.loc(), "cannot read rank / scalar types from the instantiation")
+            continue
+        rank, ti, to = int(m.group(1)), m.group(2).strip(), m.group(3).strip()
+        inst = "integral_t<%d> %s->%s" % (rank, ti, to)
+        # (a) recurrence on a small symbolic instance (ranks 1 and 2; higher ranks run the same rank-N body)
+        if rank in (1, 2) and rank not in done:
+            done.add(rank)
+            try:
+                if rank == 1:
+                    A = [sp.Symbol("a%d" % i) for i in range(3)]
+                    O = [sp.Symbol("o%d" % i) for i in range(3)]
+                    it = TInterp(F, f)
+                    it.env[f.params[0]["d"]], it.env[f.params[1]["d"]] = A, O
+                    it.run()
+                    want = [A[0], A[0] + A[1], A[0] + A[1] + A[2]]
+                    ok = eq(O, want)
+                else:
+                    A = [[sp.Symbol("a%d%d" % (i, j)) for j in range(3)] for i in range(2)]
+                    O = [[sp.Symbol("o%d%d" % (i, j)) for j in range(3)] for i in range(2)]
+                    it = TInterp(F, f)
+                    it.env[f.params[0]["d"]], it.env[f.params[1]["d"]] = A, O
+                    it.run()
+                    want = [[sum(A[p][q] for p in range(i + 1) for q in range(j + 1)) for j in range(3)] for i in range(2)]
+                    ok = all(eq(O[i], want[i]) for i in range(2))
+                R.check(ok, "R-C16-4", "recurrence rank %d" % rank, f.loc(), "the table equals the naive prefix sums on the symbolic %s instance" % ("3" if rank == 1 else "2x3"),
+                        "the summed-area table is not the prefix sum: got %s, the definition gives %s" % (O, want))
+            except OutOfFragment as e:
+                R.incomplete("R-C16-4", "recurrence rank %d" % rank, f.loc(), "cannot evaluate: %s" % e)
+        # (b) accumulation type: narrow inputs must be summed in the output type
+        ro, ri = scalar_rank(to), scalar_rank(ti)
+        if ro is None or ri is None:
+            R.incomplete("R-C16-4", inst, f.loc(), "unknown scalar types")
+            continue
+        bad = []
+        for x in f.nodes():
+            if x["k"] == "bin" and x["op"] in ("+", "-", "*") and any("itensor" in pp(y) or "otensor" in pp(y) for y in x["c"]):
+                rt = scalar_rank(x.get("t"))
+                if rt is not None and (rt[0] < ro[0] or (rt[0] == ro[0] and rt[1] < min(ro[1], 32 if ro[0] == 0 else ro[1]))):
+                    bad.append("%s computed in %s" % (pp(x)[:50], x.get("t")))
+            if x["k"] == "call" and callee(x).startswith("std::") and callee(x).split("::")[-1] in ("partial_sum", "accumulate", "inclusive_scan", "exclusive_scan", "reduce", "transform_reduce", "inner_product"):
+                # these algorithms accumulate in the value type of the first (input) iterator / of the initial value
+                ta = x.get("targs") or []
+                acc = None
+                if callee(x).split("::")[-1] in ("accumulate", "reduce", "inner_product", "transform_reduce") and len(args(x)) >= 3:
+                    acc = scalar_rank((skip(args(x)[2]) or {}).get("t"))
+                elif ta:
+                    acc = scalar_rank(str(ta[0]))
+                if acc is None or acc[0] < ro[0] or acc[1] < ro[1]:
+                    bad.append("%s accumulates in the input element type (%s), the table is %s" % (callee(x), ta[0] if ta else "?", to))
+        R.check(not bad, "R-C16-4", inst, f.loc(), "every partial sum is carried in the output scalar type", "partial sums are not carried in the output type %s: %s (narrow inputs wrap / lose precision)" % (to, bad[:2]))
+
+
 def run(ctx):
     R = ctx.report
     F = ctx.facts(TUS)
     rule_polynomials(F, R, 5 if ctx.thorough else 4)
     rule_storage(F, R)
+    rule_integral(F, R)
     rule_compile_fail(R)
